@@ -173,12 +173,15 @@ CountedMargCase(cc, a) ==
         hasmin |-> TRUE, min |-> Lo(A), hasmax |-> TRUE, max |-> Hi(A)]
 RefTheorems == (phase = "case" /\ Runnable(c)) =>
     /\ \A pol \in {"drop", "clamp"} :
-          /\ HAccept(c, HRefObs(c, pol))
-          /\ \A a \in {"x", "y"} : HMargFailing(c, HRefObs(c, pol), a, Ref1d(HMargCase(c, a))) = {}
-    /\ \A a \in {"x", "y"} :           \* drop policy = histogram()'s rule on both axes: exact marginals
-          LET mc == CountedMargCase(c, a) IN
-             /\ NBin(mc) = HRefN(c, a)
-             /\ \A i \in 0..(NBin(mc) - 1) : HMargSum(HRefObs(c, "drop"), a, i) = RefHist(mc)[i + 1]
+          LET ro == HRefObs(c, pol) IN
+          /\ HAccept(c, ro)
+          /\ \A a \in {"x", "y"} : HMargFailing(c, ro, a, Ref1d(HMargCase(c, a))) = {}
+    /\ LET rd == HRefObs(c, "drop") IN
+       \A a \in {"x", "y"} :           \* drop policy = histogram()'s rule on both axes: exact marginals
+          LET mc == CountedMargCase(c, a)
+              rh == RefHist(mc)
+          IN /\ NBin(mc) = HRefN(c, a)
+             /\ \A i \in 0..(NBin(mc) - 1) : HMargSum(rd, a, i) = rh[i + 1]
 
 BoxRefines == phase = "box" => BoxFailing(c, BoxMech(c)) = {}
 
